@@ -216,11 +216,11 @@ def ids_suite(ctx, vh):
         keep = sorted(set(range(min(head, nk))) | set(range(max(0, nk // 2 - win), min(nk, nk // 2 + win)))
                       | set(range(0, nk, stride)) | {nk - 1})
         sample = [rows[i] for i in keep]
-        terms = [gpair(gN(start), gN(i), gN(r["seq"]), gN(int.from_bytes(bytes(r["rnd"]), "big")),
+        terms = [gpair(gN(start), gN(i), gN(r["seq"]), gN(int.from_bytes(bytes(r["rnd"][:12]), "big")),
                        gN(int.from_bytes(r["id"].encode(), "big"))) for i, r in zip(keep, sample)]
         for r in sample[:: max(1, len(sample) // 2000)]:
             ctx.count(0, nontrivial_key=("id", rmode, r["seq"]))
-        badi = eval_multi(ctx, "ids_" + rmode, HDR, terms, ["oracle_idN", "agree_idN"], shard=250)
+        badi = eval_multi(ctx, "ids_" + rmode, HDR, terms, ["oracle_idN", "agree_idN"], shard=400)
         bad_o, bad_a = badi["oracle_idN"], badi["agree_idN"]
         ctx.obligation("oracle:ids-carry-seq/" + rmode, "oracle", not bad_o, "%d ids, %d fail" % (len(sample), len(bad_o)))
         ctx.obligation("correspondence:ids/" + rmode, "correspondence", not bad_a,
